@@ -515,7 +515,7 @@ Proof.
 Qed.
 
 Lemma main_holds : forall ops st,
-  forallb (fun c => snd c) (main_clauses st ops (run_d st ops)) = true.
+  forallb (fun c => snd c) (main_clauses true st ops (run_d st ops)) = true.
 Proof.
   induction ops as [|op ops IH]; intro st; [reflexivity|].
   destruct op as [hd cs|wc dst src port]; cbn [run_d main_clauses].
